@@ -20,6 +20,9 @@ var (
 	// vX.Y.Z-pre.0.yyyymmddhhmmss-abcdefabcdef (pre-release base)
 	pseudoPattern2 = regexp.MustCompile(`^v(\d+)\.(\d+)\.(\d+)-([^.]+)\.0\.(\d{14})-([a-f0-9]{12})$`)
 
+	// numericIdentifier matches the pre-release identifiers SemVer treats as numbers (digits only)
+	numericIdentifier = regexp.MustCompile(`^[0-9]+$`)
+
 	// vX.Y.(Z+1)-0.yyyymmddhhmmss-abcdefabcdef (release base)
 	pseudoPattern3 = regexp.MustCompile(`^v(\d+)\.(\d+)\.(\d+)-0\.(\d{14})-([a-f0-9]{12})$`)
 )
@@ -238,12 +241,53 @@ func comparePrerelease(a, b string) int {
 		return -1
 	}
 
-	// Lexicographic comparison for prereleases
-	if a < b {
-		return -1
+	// Compare dot-separated identifiers from left to right (SemVer 2.0.0 section 11.4):
+	// numeric identifiers compare as numbers and sort before alphanumeric ones, which compare
+	// as text; when all shared identifiers are equal the longer list is the newer one.
+	aParts := strings.Split(a, ".")
+	bParts := strings.Split(b, ".")
+
+	maxLen := len(aParts)
+	if len(bParts) > maxLen {
+		maxLen = len(bParts)
 	}
-	if a > b {
-		return 1
+
+	for i := 0; i < maxLen; i++ {
+		var aPart, bPart string
+		if i < len(aParts) {
+			aPart = aParts[i]
+		}
+		if i < len(bParts) {
+			bPart = bParts[i]
+		}
+
+		if aPart == "" && bPart != "" {
+			return -1
+		}
+		if aPart != "" && bPart == "" {
+			return 1
+		}
+
+		aIsNum := numericIdentifier.MatchString(aPart)
+		bIsNum := numericIdentifier.MatchString(bPart)
+
+		if aIsNum && bIsNum {
+			aNum, _ := strconv.Atoi(aPart)
+			bNum, _ := strconv.Atoi(bPart)
+			if aNum != bNum {
+				return compareInt(aNum, bNum)
+			}
+		} else if aIsNum {
+			return -1
+		} else if bIsNum {
+			return 1
+		} else if aPart != bPart {
+			if aPart < bPart {
+				return -1
+			}
+			return 1
+		}
 	}
+
 	return 0
 }
